@@ -39,6 +39,9 @@ type GenOpts struct {
 	MaxOps             int
 	WOp                [8]int // weights by op kind (OpResolve..OpFromContext)
 	PProbeUnregistered int
+	PFocus             int // per-mille: all Resolve ops of the run target one identity on one handle
+	PTree              int // per-mille: client 0 starts with a scope-tree template (parent, 2-3 children, resolutions, Close(parent))
+	PShuffleRegs       int // per-mille: registration calls are issued in a permuted order
 	MaxScopeDepth      int
 	CloseProviderInRun int // per-mille: a client closes the provider during the run
 
@@ -52,7 +55,7 @@ func defaultGen() GenOpts {
 	return GenOpts{
 		MaxRegs: 7,
 		PMulti:  120, PResult: 120, PVoid: 60, PInstance: 60, PErrForm: 400,
-		PName: 150, PGroup: 200, PAs: 200, PAs2: 0,
+		PName: 150, PGroup: 200, PAs: 200, PAs2: 250,
 		PParamObj:  400,
 		PResultKey: 250, PResultGroup: 0, PResultIface: 250,
 		PBuiltinDep: 100, PGroupDep: 300, POptionalMissing: 100, PIgnored: 60,
@@ -62,17 +65,20 @@ func defaultGen() GenOpts {
 		MinTasks:    1, MaxTasks: 3, MaxOps: 8,
 		WOp:                [8]int{0, 10, 3, 4, 2, 1, 1, 0},
 		PProbeUnregistered: 80,
+		PShuffleRegs:       500,
 		MaxScopeDepth:      3,
 		FaultBudget:        [4]int{10, 0, 0, 0},
 		WFault:             [4]int{3, 2, 1, 2},
 		SchedUserOnly:      300,
-		NoGroupCycle:       true,
-		NoGroupWithDeps:    true,
-		NoScopedInitSingle: true,
-		NoMultiOpts:        true,
-		NoResultGroup:      true,
-		NoMultiAs:          true,
-		NoOptionalFail:     true,
+		// shapes whose defects have been repaired are generated everywhere
+		NoGroupCycle:       false,
+		NoGroupWithDeps:    false,
+		NoScopedInitSingle: false,
+		NoMultiAs:          false,
+		// still owned by C04 (see propGen)
+		NoMultiOpts:    true,
+		NoResultGroup:  true,
+		NoOptionalFail: true,
 	}
 }
 
@@ -241,7 +247,7 @@ func (g *gen) genConfig() *Config {
 					}
 				}
 				for j := range r.Outs {
-					if r.Outs[j].T.IsIface() {
+					if r.Outs[j].T.IsIface() && r.Outs[j].Group == "" {
 						r.Outs[j].Key = keyPool[(tries+j)%len(keyPool)]
 						r.Outs[j].T = ifaceRef((int(r.Outs[j].T) - NT - ND + 1) % NI)
 					}
@@ -359,7 +365,47 @@ func (g *gen) genConfig() *Config {
 	}
 	g.seedDefects(c)
 	g.excludeShapes(c)
+	g.shuffleRegs(c)
 	return c
+}
+
+// shuffleRegs permutes the order of the registration calls (the relative order
+// of registrations that are group members is kept, it is part of the
+// configuration). Registration ids are unchanged.
+func (g *gen) shuffleRegs(c *Config) {
+	if !g.p(StCfg, g.o.PShuffleRegs) || len(c.Regs) < 2 {
+		return
+	}
+	n := len(c.Regs)
+	perm := make([]*Reg, n)
+	copy(perm, c.Regs)
+	for i := n - 1; i > 0; i-- {
+		j := g.n(StCfg, i+1)
+		perm[i], perm[j] = perm[j], perm[i]
+	}
+	var slots []int
+	var members []*Reg
+	for pos, r := range perm {
+		grouped := false
+		for _, p := range regIdents(r) {
+			if p.Id.Group != "" {
+				grouped = true
+			}
+		}
+		if grouped {
+			slots = append(slots, pos)
+			members = append(members, r)
+		}
+	}
+	for i := 1; i < len(members); i++ {
+		for j := i; j > 0 && members[j].ID < members[j-1].ID; j-- {
+			members[j], members[j-1] = members[j-1], members[j]
+		}
+	}
+	for k, pos := range slots {
+		perm[pos] = members[k]
+	}
+	c.Regs = perm
 }
 
 // seedDefects adds, with the configured probabilities, a back edge (cycle),
@@ -383,6 +429,11 @@ func (g *gen) seedDefects(c *Config) {
 			d := Dep{T: p.Id.T, Key: p.Id.Key, Group: p.Id.Group}
 			if d.Key != "" || d.Group != "" {
 				r.ParamObj = true
+			}
+			if g.p(StCfg, 300) {
+				// the back edge is an optional parameter-object field
+				r.ParamObj = true
+				d.Optional = true
 			}
 			r.Deps = append(r.Deps, d)
 		}
@@ -408,7 +459,8 @@ func (g *gen) seedDefects(c *Config) {
 			if d.Key != "" || d.Group != "" {
 				r.ParamObj = true
 			}
-			if r.ParamObj && d.Group == "" && g.p(StCfg, 200) {
+			if g.p(StCfg, 300) {
+				r.ParamObj = true
 				d.Optional = true
 			}
 			r.Deps = append(r.Deps, d)
@@ -461,7 +513,7 @@ func (g *gen) excludeShapes(c *Config) {
 						}
 					}
 				}
-				if o.NoOptionalFail && d.Optional && !t.Missing && !t.Builtin && d.Group == "" {
+				if o.NoOptionalFail && (o.FaultBudget[1]+o.FaultBudget[2]+o.FaultBudget[3] > 0) && d.Optional && !t.Missing && !t.Builtin && d.Group == "" {
 					// owned by C15's known finding: an optional field swallows the
 					// failure of a registered service. Elsewhere such edges are required.
 					d.Optional = false
@@ -509,12 +561,44 @@ func (g *gen) genPrograms(m *Model) [][]Op {
 			}
 		}
 	}
+	focus := len(idents) > 0 && g.p(StOps, o.PFocus)
+	var focusId Ident
+	focusH := 0
+	if focus {
+		focusId = idents[g.n(StOps, len(idents))]
+		focusH = g.n(StOps, 3)
+	}
 	progs := make([][]Op, nt)
 	for ti := 0; ti < nt; ti++ {
 		if ti == 0 {
 			progs[ti] = append(progs[ti], Op{Kind: OpBuild})
 		} else {
 			progs[ti] = append(progs[ti], Op{Kind: OpWaitBuilt})
+		}
+		if ti == 0 && g.p(StOps, o.PTree) {
+			// scope-tree template: h1 = scope on the provider, h2.. = its children
+			k := 2 + g.n(StOps, 2)
+			progs[ti] = append(progs[ti], Op{Kind: OpCreateScope, HSel: 0, CtxKind: g.n(StOps, nCtxKinds)})
+			for c := 0; c < k; c++ {
+				progs[ti] = append(progs[ti], Op{Kind: OpCreateScope, HSel: 1, CtxKind: g.n(StOps, nCtxKinds)})
+			}
+			var own []Ident
+			for _, p := range m.Reg.Order {
+				if p.Id.Group == "" && m.regs[p.Reg].Life != LSingleton {
+					own = append(own, p.Id)
+				}
+			}
+			if len(own) > 0 {
+				for c := 0; c <= k; c++ {
+					if g.p(StOps, 800) {
+						progs[ti] = append(progs[ti], Op{Kind: OpResolve, HSel: 1 + c, Id: own[g.n(StOps, len(own))]})
+					}
+				}
+			}
+			if g.p(StOps, 300) {
+				progs[ti] = append(progs[ti], Op{Kind: OpClose, HSel: 2 + g.n(StOps, k)})
+			}
+			progs[ti] = append(progs[ti], Op{Kind: OpClose, HSel: 1})
 		}
 		nops := 1 + g.n(StOps, o.MaxOps)
 		for j := 0; j < nops; j++ {
@@ -526,6 +610,9 @@ func (g *gen) genPrograms(m *Model) [][]Op {
 					op.Id = g.probeIdent()
 				} else {
 					op.Id = idents[g.n(StOps, len(idents))]
+				}
+				if focus && g.p(StOps, 800) {
+					op.Id, op.HSel = focusId, focusH
 				}
 			case OpResolveGroup:
 				if len(groups) == 0 || g.p(StOps, o.PProbeUnregistered) {
